@@ -80,7 +80,23 @@ def _readn(fd, n):
     return b"".join(chunks)
 
 
+class _Flood(BaseException):
+    """raised by the interval timer of the asanpyx child when the sanitizer has already
+    printed a lot for the current input (a Python-level loop around an unchecked read)"""
+
+
+_CUR = {"o0": 0}
+
+
+def _on_timer(_sig, _frm):
+    if os.fstat(2).st_size - _CUR["o0"] > 48 * 1024:
+        raise _Flood()
+
+
 def _exc_info(e):
+    if isinstance(e, _Flood):
+        return {"type": "_Flood", "mod": "harness", "msg": "stopped: sanitizer report flood", "bad": False,
+                "is_exc": False, "flood": True}
     frames = []
     tb = e.__traceback__
     while tb is not None:
@@ -271,6 +287,8 @@ def _child(impls, sfd, kind):
             resource.setrlimit(resource.RLIMIT_AS, (lim, lim))
         except Exception:
             pass
+    if kind == "asanpyx":
+        signal.signal(signal.SIGVTALRM, _on_timer)
     n = 0
     while True:
         hdr = _readn(0, _HDR.size)
@@ -284,7 +302,18 @@ def _child(impls, sfd, kind):
         for impl in impls:
             os.pwrite(sfd, ("%d %s" % (rid, impl.name)).ljust(31).encode() + b"\n", 0)
             o0 = os.fstat(2).st_size
-            r = _run_impl(impl, data, mode)
+            if kind == "asanpyx":
+                _CUR["o0"] = o0
+                signal.setitimer(signal.ITIMER_VIRTUAL, 0.05, 0.05)
+                try:
+                    r = _run_impl(impl, data, mode)
+                except _Flood:
+                    r = {"a": {"nb": 0, "nrec": 0, "batches": [], "dig": "", "exc": _exc_info(_Flood())},
+                         "b": {"nb": 0, "nrec": 0, "batches": [], "dig": ""}}
+                finally:
+                    signal.setitimer(signal.ITIMER_VIRTUAL, 0, 0)
+            else:
+                r = _run_impl(impl, data, mode)
             o1 = os.fstat(2).st_size
             if o1 > o0:
                 r["log"] = [o0, o1]
@@ -450,9 +479,10 @@ class Worker:
         self.deaths = 0
         self.stage_path = None
         self.so_copies = {}
+        self._ready_for = None
 
     # ---- lifecycle
-    def start(self):
+    def start(self, wait=True):
         from . import stage
         os.makedirs(self.tmpdir, exist_ok=True)
         os.makedirs(PYCACHE, exist_ok=True)
@@ -460,12 +490,12 @@ class Worker:
             self.stage_path = stage.stage("asan")
             env = stage.asan_env()
             sym = _symbolizer_path()
-            # "asan": recover mode (all reports of one input are seen, hangs behind an
-            # out-of-bounds read are reached); "asanpyx": Python-level loops around the
-            # unchecked varint helper would print reports forever, so stop at the first.
+            # recover mode: all reports of one input are seen and hangs behind an out-of-bounds
+            # read are reached.  In "asanpyx" Python-level loops around the unchecked varint
+            # helper would print reports forever; its child stops an input after 48 KiB of
+            # sanitizer output (interval timer, see _on_timer).
             env["ASAN_OPTIONS"] = (
-                "detect_leaks=0:halt_on_error=%d:abort_on_error=0:exitcode=77:" % (
-                    1 if self.kind == "asanpyx" else 0) +
+                "detect_leaks=0:halt_on_error=0:abort_on_error=0:exitcode=77:" +
                 "allocator_may_return_null=1:symbolize=0:suppress_equal_pcs=0:"
                 "print_legend=0:malloc_context_size=0:handle_abort=1:handle_segv=1:"
                 "handle_sigbus=1:handle_sigfpe=1:handle_sigill=1:print_summary=1:"
@@ -494,7 +524,14 @@ class Worker:
             env=env, cwd=self.tmpdir, close_fds=True)
         self.buf = b""
         self.child_pid = None
-        ev = self._read_event(120.0)
+        if not wait:
+            return
+        self.wait_ready()
+
+    def wait_ready(self):
+        if getattr(self, "impls", None) and self.restarts and self._ready_for is self.proc:
+            return
+        ev = self._read_event(180.0)
         if ev is None or ev.get("ev") != "ready":
             tail = self._read_log(0)[-2000:]
             self.stop()
@@ -502,6 +539,7 @@ class Worker:
         self.info = ev.get("info", {})
         self.impls = ev.get("impls", [])
         self.restarts += 1
+        self._ready_for = self.proc
         # private copies of the extension modules for symbolisation (other runs may
         # prune the shared stage directory while we are still working)
         sod = self.info.get("so")
@@ -630,6 +668,8 @@ class Worker:
             if self.proc is not None:
                 self.stop()
             self.start()
+        elif self._ready_for is not self.proc:
+            self.wait_ready()
         self._await_child()
         self.rid = (self.rid + 1) & 0x7FFFFFFF
         rid = self.rid
